@@ -24,8 +24,8 @@ pub static DEF: PropDef = PropDef {
     level: "exploration",
     rule: "library stage: each case generates one well-formed declaration (random variant counts, all six data types, ids of 1-8 bytes, paths of any depth with trailing and intermediate global placeholders, root elements without doc_path) in both syntaxes, expands it with the real macro implementation (catching panics), requires identical token streams from the two front-ends, then parses the generated code and checks every match arm of get_tag_data_type / get_path_by_id / the six constructors / get_raw_tag / get_id / the six accessors and the rewritten enum against the declaration table (declared ids, plus Void/Crc32/RawTag, nothing else). compiled stage (case 0 of each run): a batch of 12 (quick) / 48 (thorough) accepted declarations is emitted as real `#[ebml_specification]` / `easy_ebml!` invocations with their tables, compiled by cargo against /repo and run: for every declared id and for undeclared probe ids the data type, path, constructor matrix, accessor matrix, get_id, raw-tag round trip are compared with the table, then a writer->reader round trip and hostile-bytes parses run on each derived spec under catch_unwind ('Bad specification' panics). reject stage (cases 1..): each listed class of broken declaration (duplicate ids incl. collision with Void/Crc32, unknown parent, non-master parent of a leaf / of a master, path not extending the parent's path by wrong prefix / missing segment / extra segment for leaves and masters, zero-maximum and adjacent placeholders, missing id / data_type, unknown data type, unknown attribute), minimal and embedded in a random declaration, must be rejected by the macro or, when the macro accepts it, by rustc (one binary target per declaration in a generated crate; it must fail to compile). distinct = declaration shape (variant count, type multiset, path-shape classes) / (broken class, embedding); non-trivial iff the declaration has >= 2 masters and a placeholder, or is a broken one.",
     assumptions: &["interpreting the generated token stream is validated against real compiled behaviour by the compiled stage of the same run", "only the classes named in the property are demanded to be rejected (e.g. min > max bounds or ill-formed ids are not)", "cargo/rustc offline with the registry cache of this sandbox"],
-    cases_quick: 600,
-    cases_thorough: 20_000,
+    cases_quick: 1_500,
+    cases_thorough: 60_000,
     floors: &[("declarations_expanded", 400), ("arms_checked", 20_000), ("front_ends_compared", 400), ("compiled_specs_checked", 10), ("broken_declarations", 40), ("distinct_nontrivial", 100)],
     exhaustive_note: None,
     run,
